@@ -106,6 +106,7 @@ type csGen struct {
 	recvName string          // name of the receiver variable of the function being translated
 	loops    int             // nesting depth of `for` loops (break / continue)
 	dropped  map[string]bool // parameters of a dropped kind
+	bump     int             // set by a statement that wraps the rest of its block: extra indentation from now on
 	// per function
 	scopes   []map[string]string // Go name -> Lean name
 	kinds    map[string]ckind    // Lean name -> kind
@@ -132,6 +133,9 @@ type csProfile struct {
 	zero      map[ckind]string                                          // Go zero values for `var x T`
 	ident     func(g *csGen, name string) (csVal, bool)                 // package-level constants
 	paramKind func(name string, k ckind) ckind                          // kind of a parameter, given its name
+	// a `defer` with a meaning: emits the head of a wrapper (e.g. "deferred (…) do") and returns true; the statements
+	// that follow the defer in its block become the wrapper's body
+	deferStmt func(g *csGen, x *ast.DeferStmt, ind int) bool
 }
 
 type csVal struct {
@@ -405,6 +409,32 @@ func (g *csGen) expr(e ast.Expr, want ckind) csVal {
 			g.fail(e, "index of kind %q by %q", k, ik)
 		}
 		return one("(← index "+s+" "+i+")", ek)
+	case *ast.SliceExpr:
+		// xs[lo:hi] (either bound may be missing); out of range is the fault of `sliceOf`
+		if g.prof == nil || x.Slice3 {
+			g.fail(e, "slice expression")
+			break
+		}
+		s, k := g.val(x.X, want)
+		if _, ok := csElem[k]; !ok {
+			g.fail(e, "slice of kind %q", k)
+		}
+		lo, hi := "0", s+".length"
+		if x.Low != nil {
+			v, vk := g.val(x.Low, "nat")
+			if vk != "nat" {
+				g.fail(x.Low, "slice bound of kind %q", vk)
+			}
+			lo = v
+		}
+		if x.High != nil {
+			v, vk := g.val(x.High, "nat")
+			if vk != "nat" {
+				g.fail(x.High, "slice bound of kind %q", vk)
+			}
+			hi = v
+		}
+		return one("(← sliceOf "+s+" "+lo+" "+hi+")", k)
 	case *ast.CompositeLit:
 		return g.compositeVal(x)
 	default:
@@ -913,6 +943,9 @@ func (g *csGen) block(list []ast.Stmt, ind int) {
 			next = list[i+1]
 		}
 		g.stmt(s, next, ind)
+		if g.bump > 0 { // the rest of the block is the body of the wrapper just emitted
+			ind, n, g.bump = ind+g.bump, len(g.out), 0
+		}
 	}
 	if len(g.out) == n {
 		g.emit(ind, "pure ()")
@@ -1006,6 +1039,10 @@ func (g *csGen) stmt(s ast.Stmt, next ast.Stmt, ind int) {
 		}
 		g.fail(s, "expression statement %s", g.goText(s))
 	case *ast.DeferStmt:
+		if g.prof != nil && g.prof.deferStmt != nil && g.prof.deferStmt(g, x, ind) {
+			g.bump = 1
+			return
+		}
 		if g.recvCS != "" && selText(x.Call.Fun) == g.recvCS+".addMutex.Unlock" {
 			g.emit(ind, "-- "+g.goText(s)+": released when the function returns")
 			return
@@ -1346,6 +1383,10 @@ func (g *csGen) translate(f *csFunc) {
 	}
 	ast.Inspect(f.decl.Body, func(n ast.Node) bool {
 		switch x := n.(type) {
+		case *ast.DeferStmt:
+			if _, lit := x.Call.Fun.(*ast.FuncLit); lit && g.prof != nil && g.prof.deferStmt != nil {
+				return false // judged by the profile when the statement is translated
+			}
 		case *ast.FuncLit:
 			g.fail(x, "function literal")
 		case *ast.AssignStmt:
